@@ -85,6 +85,42 @@ def decode_fn(prog):
             "{\n  let ghost buf0 = cur.buf@;\n" + b.strip()[1:].rstrip()[:-1] + "\n}\n")
 
 
+def opcode_table(sect):
+    """[(variant, byte)] read off `pub enum OpCode { X = 0x.., .. }`"""
+    m = find_code(sect, r"pub\s+enum\s+OpCode\s*\{")
+    body = sect[m.end():match_brace(sect, m.end() - 1) - 1]
+    return [(a, int(b, 16)) for a, b in re.findall(r"(\w+)\s*=\s*0x([0-9A-Fa-f]+)", body)]
+
+
+# instruction sizes in bytes, from the ENCODER (EncodedInstr::write_to / byte_len: opcode byte, u64 function id, u32 operands; VarArg: + u32 count + count u32 operands)
+SIZES = {"ConstLoad": "9", "Return": "5", "NullOp": "13", "Unop": "17", "Binop": "21", "Ternop": "25", "Quadop": "29"}
+
+
+def complete_items(sect, prog):
+    """the same transcription of decode_instructions with a second contract: every stream that consists of well-formed instructions (sizes as the encoder writes them, every
+    opcode known, every instruction entirely inside the buffer) is ACCEPTED -- the decoder rejects nothing the encoder can emit, for any number of VarArg operands"""
+    tab = opcode_table(sect)
+    if {a for a, _ in tab} != set(SIZES) | {"VarArg"}:
+        raise AnchorLost("enum OpCode has other variants than the size table was written for: %s" % sorted(a for a, _ in tab))
+    spec_from = "pub open spec fn opcode_of(b: u8) -> Option<OpCode> {\n  " + " else ".join("if b == %du8 { Some(OpCode::%s) }" % (v, a) for a, v in tab) + " else { None }\n}\n"
+    size = ("pub open spec fn instr_size(buf: Seq<u8>, pos: int) -> Option<int> {\n  match opcode_of(buf[pos]) {\n"
+            + "".join("    Some(OpCode::%s) => Some(%s),\n" % (a, SIZES[a]) for a, _ in tab if a in SIZES)
+            + "    Some(OpCode::VarArg) => Some(17 + 4 * (le32(buf, pos + 13) as int)),\n    None => None,\n  }\n}\n"
+            "pub open spec fn decodable(buf: Seq<u8>, pos: int) -> bool decreases buf.len() - pos {\n"
+            "  if pos < 0 || pos >= buf.len() { true } else { match instr_size(buf, pos) { Some(n) => n > 0 && pos + n <= buf.len() && decodable(buf, pos + n), None => false } }\n}\n")
+    m = find_code(sect, r"impl\s+OpCode\s*\{")
+    blk = sect[m.start():match_brace(sect, m.end() - 1)]
+    sig, body = extract_fn(blk, "from_u8")
+    from_u8 = "impl OpCode {\n%s\n  ensures r == opcode_of(%s),\n%s\n}\n" % (vlib.name_return(vlib.strip_vis(sig.strip())), vlib.param_names(sig)[0], body)
+    fn = decode_fn(prog)
+    fn = fn.replace("fn decode_instructions(mut cur: Cur) -> (res: Option<Vec<DecodedInstr>>)\n{", "fn decode_instructions(cur_in: Cur) -> (res: Option<Vec<DecodedInstr>>)\n  requires cur_in.pos as int <= cur_in.buf@.len(),\n  ensures decodable(cur_in.buf@, cur_in.pos as int) ==> res is Some,\n{\n  let ghost pos0 = cur_in.pos as int;\n  let ghost buf_in = cur_in.buf@;\n  let mut cur = cur_in;", 1)
+    fn = fn.replace("    invariant cur.buf@ == buf0,\n    decreases cur.rem(),", "    invariant cur.buf@ == buf0, buf0 == cur_in.buf@, pos0 == cur_in.pos as int, cur.pos as int <= buf0.len(), decodable(buf0, pos0) ==> decodable(buf0, cur.pos as int),\n    decreases cur.rem(),", 1)
+    fn = fn.replace("        invariant cur.buf@ == buf0, pos_before < cur.pos, cur.pos as int <= buf0.len(),", "        invariant cur.buf@ == buf0, buf0 == cur_in.buf@, pos0 == cur_in.pos as int, pos_before < cur.pos, cur.pos as int <= buf0.len(), arg_count == le32(buf0, pos_before as int + 13) as usize, decodable(buf0, pos0) ==> (cur.pos as int + 4 * (arg_count - i_) == pos_before as int + 17 + 4 * arg_count && pos_before as int + 17 + 4 * arg_count <= buf0.len() && decodable(buf0, pos_before as int + 17 + 4 * arg_count)),", 1)
+    # one unfolding of `decodable` at the instruction being decoded
+    fn = re.sub(r"(let\s+pos_before\s*=\s*cur\.position\(\)\s*;)", r"\1\n    proof { reveal_with_fuel(decodable, 2); }", fn, count=1)
+    return spec_from, size, from_u8, fn
+
+
 def _struct(text, name):
     m = find_code(text, r"pub\s+struct\s+%s\s*\{" % name)
     if not m:
@@ -282,6 +318,15 @@ def add_units(plan, prop="C07"):
         u = vlib.VerusUnit("c07_decode_instructions", vlib.verus_file(items), {"decode_instructions": ob.name}, ["canary_decode"])
         plan.verus.append(u)
         add_loader_unit(plan, prop, prog, sect, items, part2)
+        obc = plan.ob("%s.verus.decode_instructions.accepts_every_encodable_stream" % prop, "verus", "proved", functions=["decode_instructions", "OpCode::from_u8"],
+                      what="every byte stream made of well-formed instructions -- known opcode, size as the encoder writes it (VarArg: 17 + 4 * operand count, for ANY count), entirely inside the buffer -- is accepted: the decoder rejects nothing the encoder can emit; OpCode::from_u8 is the inverse of the enum's discriminants")
+        try:
+            spec_from, size, from_u8, fnc = complete_items(sect, prog)
+            itemsc = [part1, _enum(sect, "OpCode"), spec_from, size, from_u8, _enum(prog, "DecodedInstr"), fnc, vlib.verus_canary("canary_decode_complete", "x: u64", [])]
+            plan.verus.append(vlib.VerusUnit("c07_decode_complete", vlib.verus_file(itemsc), {"decode_instructions": obc.name}, ["canary_decode_complete"]))
+            plan.dropped.append(complete_items.__doc__.strip())
+        except Exception as e:
+            plan.anchor_errors.append((obc.name, "%s: %s" % (type(e).__name__, e)))
         plan.dropped.append(__doc__.split("Transcription", 1)[1].strip())
         plan.assumptions.append("std::io::Cursor<&[u8]> and byteorder::ReadBytesExt behave as contracts/C07/curmodel.rs (a read succeeds iff enough bytes remain and advances the position; decoded values unspecified); usize is 64 bits")
     except Exception as e:
